@@ -90,7 +90,8 @@ Section Resume.
         | e =>
             let failed := (bs, match e with EndEOF => UEOF | _ => UErr end) in
             if r_max s <=? cur' then
-              (bs, UEOF, mkR cur' (r_max s) (r_retry s) (r_att s) (r_boff s) (r_alive s) true [] e, [])
+              (* everything expected was handed out: the read is over; the body's own error is passed on as it is *)
+              (bs, snd failed, mkR cur' (r_max s) (r_retry s) (r_att s) (r_boff s) (r_alive s) true [] e, [])
             else
               (* short read: backoffSet, then next *)
               let boff' := S (r_boff s) in
